@@ -183,7 +183,7 @@ impl Property for C01 {
         let disc_b = src.draw(4) as u8;
         let dev = DevCfg { bbox, caps: 0, disc: 0 };
         let stack = if src.draw(3) == 0 {
-            gen_stack(src, &dev.r(), dev_kind, 3, true, 24, true)
+            gen_stack(src, &dev.r(), dev_kind, 3, true, 24, true, false)
         } else {
             Vec::new()
         };
@@ -366,6 +366,10 @@ impl Property for C01 {
             h.finish()
         };
         if opts.describe {
+            out.trace.push(format!(
+                "device totals: A calls={} items={} | B calls={} items={} budget_exceeded={}",
+                a.st.n_calls, a.st.n_items, b.st.n_calls, b.st.n_items, b.st.budget_exceeded
+            ));
             out.trace.push("--- path A ---".into());
             out.trace.extend(a.st.describe_calls(25));
             out.trace.push("--- path B ---".into());
